@@ -18,6 +18,8 @@ import (
 	"errors"
 	"fmt"
 	"os"
+	"unicode"
+	"unicode/utf8"
 )
 
 type Grammar struct {
@@ -80,7 +82,8 @@ func consistent(g *Grammar) (err error) {
 			if s == "empty" || s == "error" {
 				continue
 			}
-			if s[0] >= 'A' && s[0] <= 'Z' {
+			// a production name begins with an upper-case letter, which need not be an ASCII letter
+			if r, _ := utf8.DecodeRuneInString(s); unicode.IsUpper(r) {
 				fmt.Fprintf(os.Stderr, "error: undefined symbol %q used in productions %q\n", s, in)
 				err = errUndefined
 			} else {
